@@ -124,7 +124,7 @@ class Rig:
         niov = size // minb + 3
         evs, crash, out = self.drive(["new %d %d %d %d %d" % (size, minb, nreaders, niov, round0)] + cmds)
         if crash:
-            self.ctx.fail("ring:%s:%s" % (crash[0], crash[1]), "%s: driver died: %s\n%s" % (what, crash[3], out[-2500:]),
+            self.ctx.fail("ring:%s:%s" % (crash[0], died_in(crash, cmds[0] if cmds else "", out)), "%s: driver died: %s\n%s" % (what, crash[3], out[-2500:]),
                           {"what": what, "commands": cmds})
             return None, evs
         self.ntrace += 1
@@ -135,6 +135,16 @@ class Rig:
             self.report_trace(res, evs, cmds, what)
             self.ctx.add(traces_validated_against_impl=1, trace_events_validated=len(evs))
         return res, evs
+
+OPFN = {"get": "r_buf_wbuf_get", "set": "r_buf_wbuf_set", "set2": "r_buf_wbuf_set2", "init": "r_buf_rpos_init", "avail": "r_buf_data_avail_size",
+        "dget": "r_buf_data_get", "inc": "r_buf_rpos_inc", "new": "r_buf_alloc", "rand": "random-history"}
+def died_in(c, cmd, out=""):
+    """function part of the key of a dead driver: the sanitizer names it; a signal / the watchdog (FAULT sig=14 = the call did
+    not return) does not, there the command the driver was executing does (the fault handler prints it as case=...)"""
+    if c[1]: return c[1]
+    m = re.search(r"FAULT sig=\d+ case=(\w+)", out or "")
+    op = m.group(1) if m else (cmd.split()[0] if cmd else "")
+    return OPFN.get(op, op)
 
 # ---------------------------------------------------------------- stage 0: which variant of the spec is the tree?
 def detect_variant(rig):
@@ -284,7 +294,10 @@ def replay_behaviours(rig, base, nbeh, depth, label):
             lines.append("new %d %d %d %d %d" % (k["size"], k["minb"], k["nr"], niov, r0 - k["mod"]))
             meta.append((b, None, r0))
         lines.append(cmd_of_ev(s["ev"])); meta.append((b, s, r0))
-    res = common.batch_run(rig.exe, lines, timeout=600, env=rig.env)
+    # the driver dies on call after call (each death reported, the rest of its behaviour skipped): after 8 deaths the remaining
+    # behaviours are not run - the check ends with its verdict in bounded time
+    res = common.batch_run(rig.exe, lines, timeout=600, env=rig.env, max_crashes=8, on_excess="skip")
+    cut = any(isinstance(a, dict) and a.get("skipped") for a in res)
     dead = -1; nsteps = 0; nbad = 0; classes = {}
     feat = {"deliveries": 0, "deliveries_to_previous_round_reader": 0, "deliveries_in_two_regions": 0, "loss_reports(drop>0)": 0,
             "calls_after_real_round_num_wrapped": 0, "refused_commits(EINVAL)": 0}
@@ -292,9 +305,10 @@ def replay_behaviours(rig, base, nbeh, depth, label):
     for i, (ln, (bid, s, r0), a) in enumerate(zip(lines, meta, res)):
         if s is None: start = i
         if bid == dead: continue
+        if isinstance(a, dict) and a.get("skipped"): continue
         if isinstance(a, dict):
             c = a["crash"]; dead = bid
-            ctx.fail("ring:%s:%s" % (c[0], c[1]), "%s: %s\n%s" % (label, c[3], a["raw"]), {"commands": lines[start:i + 1]})
+            ctx.fail("ring:%s:%s" % (c[0], died_in(c, ln, a["raw"])), "%s: %s\n%s" % (label, c[3], a["raw"]), {"commands": lines[start:i + 1]})
             continue
         if s is None: continue
         act = json.loads(a)
@@ -322,7 +336,7 @@ def replay_behaviours(rig, base, nbeh, depth, label):
     ops = {}
     for s_ in states: ops[s_["ev"]["op"]] = ops.get(s_["ev"]["op"], 0) + 1
     ctx.cov.setdefault("replayed_calls_per_function", {})[label] = ops
-    if not all(feat.values()) or len(ops) < 7: raise common.Infra("vacuous replay corpus: %s %s" % (feat, ops))
+    if (not all(feat.values()) or len(ops) < 7) and not cut: raise common.Infra("vacuous replay corpus: %s %s" % (feat, ops))
     ctx.log("%s: %d behaviours / %d calls replayed on the real ring, %d diverging behaviours" % (label, b + 1, nsteps, nbad))
     if states: ctx.add(samples=[{"call": cmd_of_ev(states[-1]["ev"]), "expected": states[-1]["ev"]}])
 
@@ -371,12 +385,13 @@ def replay_edges(rig, base, label, workers=4):
             if pre["wcount"] == 0 and pre["wpos"] == 0 and pre["idx"] == 0 and pre["full"] == 0: init_like += 1
             else: orphan += 1
     if orphan: raise common.Infra("%d edge pre-states are not post-states of any edge" % orphan)
-    res = common.batch_run(rig.exe, lines, timeout=1800, env=rig.env)
+    res = common.batch_run(rig.exe, lines, timeout=1800, env=rig.env, max_crashes=24, on_excess="skip")    # repeated deaths (each one reported): the rest is not run
     nbad = 0; n = 0
     for i, (ln, e, a) in enumerate(zip(lines, meta, res)):
+        if isinstance(a, dict) and a.get("skipped"): continue
         if isinstance(a, dict):
             c = a["crash"]; nbad += 1
-            if nbad <= 5: ctx.fail("ring:%s:%s" % (c[0], c[1]), "%s: %s\n%s" % (label, c[3], a["raw"]), {"commands": lines[max(1, i - 1):i + 1]})
+            if nbad <= 5: ctx.fail("ring:%s:%s" % (c[0], died_in(c, ln, a["raw"])), "%s: %s\n%s" % (label, c[3], a["raw"]), {"commands": lines[max(1, i - 1):i + 1]})
             continue
         if e is None: continue
         diff = compare_step(e, json.loads(a), r0, mod, k["nr"]); n += 1
